@@ -39,18 +39,23 @@ structure Caps where
 
 def capsOf (sid : String) : Option Caps :=
   match sid with
-  | "rank9" | "r9_map" => some { rank := true, numbits := true, count := true }
-  | "rs" => some { rank := true, numbits := true }
+  | "rank9" | "r9_map" | "s9_inner" | "sa_inner" | "sac_inner" =>
+    some { rank := true, numbits := true, count := true }
+  -- (`BitCount` of `RankSmall` is hand-written, and delegated by the selectors over it)
+  | "rs" | "rs_inner" | "ss_inner" | "szs_inner" | "rs_macro" =>
+    some { rank := true, numbits := true, count := true }
   | "sel9" => some { rank := true, numbits := true, count := true, select := true }
-  | "sa" | "sa_new" | "sa_span" | "sac" => some { numbits := true, count := true, select := true }
+  | "sa" | "sa_new" | "sa_span" | "sac" | "r9_inner_sa" | "sza_inner" | "sa_anb" | "szac_inner" =>
+    some { numbits := true, count := true, select := true }
   | "sza" | "sza_new" | "sza_span" | "szac" => some { numbits := true, count := true, selectZero := true }
-  | "sa_r9" | "sa_map" => some { rank := true, numbits := true, count := true, select := true }
+  | "sa_r9" | "sa_map" | "sac_map" | "r9_map_sa" | "rs_map_sa" =>
+    some { rank := true, numbits := true, count := true, select := true }
   | "sza_sa" | "sa_sza" | "sza_map" | "sa_map_sza" => some { numbits := true, count := true, select := true, selectZero := true }
   | "sza_sa_r9" | "sza_sel9" | "szac_sac_r9" | "szac_map" =>
     some { rank := true, numbits := true, count := true, select := true, selectZero := true }
-  | "ss" | "ss_new" => some { rank := true, numbits := true, select := true }
-  | "szs" | "szs_new" => some { rank := true, numbits := true, selectZero := true }
-  | "szs_ss" => some { rank := true, numbits := true, select := true, selectZero := true }
+  | "ss" | "ss_new" | "szs_ss_inner" => some { rank := true, numbits := true, count := true, select := true }
+  | "szs" | "szs_new" => some { rank := true, numbits := true, count := true, selectZero := true }
+  | "szs_ss" => some { rank := true, numbits := true, count := true, select := true, selectZero := true }
   | _ => none
 
 /-- model of one layer over the bit vector `(ws, len)` whose number of ones is `n1`;
